@@ -3,6 +3,9 @@
 1. TLC explores every abstract state (package x description in memory x description on disk) reachable by histories of
    Create / Iterate(store) / Patch / Store / Load(update) of bounded length and checks the C07 properties on the model
    (StoreLoadIdentity, LoadYieldsStored, LoadStoreIdempotent, CreationOptionsSurvive); every action must be covered.
+   The package family: platform x user variable file x replication x DoWhile x blueprint layers defining the same option
+   (default/platform x global/stage); a stage variable that references replica / loopIteration and a variable the component
+   overrides; the live objects are made by Create or by Load (Iterate commutes with Store;Load).
 2. spec -> code: TLC prints every transition with a shortest history that reaches it (ACTION_CONSTRAINT EmitStep).  Every
    maximal history is executed on real directories: Experiment.experimentFromPackage (platform, user variable file,
    replication, DoWhile document), WorkflowGraph.instantiate_dowhile_next_iteration, a dynamic option change,
@@ -23,104 +26,79 @@ from .. import tlc
 PID = "C07"
 ACTIONS = ["Create", "Iterate", "Patch", "Store", "Load"]
 
-DOWHILE = """
-type: DoWhile
-inputBindings:
-  number: {type: output}
-loopBindings:
-  number: "gather:output"
-condition: "stop/flag.txt:output"
-components:
-- name: work
-  command: {executable: echo, arguments: "number:output %(uv)s %(pv)s %(loopIteration)s"}
-  references: ["number:output"]
-WORKATTR
-- name: gather
-  command: {executable: echo, arguments: "work:output"}
-  references: ["work:output"]
-GATHERATTR
-- name: stop
-  command: {executable: echo, arguments: "gather:output %(loopIteration)s"}
-  references: ["gather:output"]
-"""
-
-MAIN = """
-platforms: [default, plat]
-output:
-  result:
-    data-in: "stage0.gen/out.stdout:copy"
-    description: "key output %(pv)s"
-status-report:
-  0: {stage-weight: 0.2}
-  1: {stage-weight: 0.5}
-  2: {stage-weight: 0.3}
-variables:
-  default:
-    global: {uv: d-uv, pv: d-pv, n: 2, gv: "g-%(pv)s"}
-    stages:
-      0: {sv: d-sv}
-  plat:
-    global: {pv: P-pv}
-    stages:
-      0: {sv: P-sv}
-environments:
-  default:
-    env1: {A: "%(pv)s", C: common}
-  plat:
-    env1: {B: plat-only}
-blueprint:
-  default:
-    global:
-      resourceManager: {config: {walltime: 61}}
-  plat:
-    global:
-      resourceManager: {config: {walltime: 62}}
-components:
-- stage: 0
-  name: gen
-  command: {executable: echo, arguments: "%(uv)s %(pv)s %(sv)s %(gv)s %(pp)s", environment: env1}
-  variables: {pp: 0}
-  override:
-    plat:
-      command: {arguments: "OVR %(uv)s %(pv)s %(sv)s %(gv)s %(pp)s"}
-LOOP
-- stage: 2
-  name: report
-  command: {executable: echo, arguments: "REPORTARGS"}
-  references: REPORTREFS
-"""
-
-PLAIN = """
-- stage: 1
-  name: work
-  command: {executable: echo, arguments: "stage0.gen:output %(uv)s %(pv)s"}
-  references: ["stage0.gen:output"]
-WORKATTR
-- stage: 1
-  name: gather
-  command: {executable: echo, arguments: "work:output"}
-  references: ["work:output"]
-GATHERATTR
-"""
+THREADS = {"dg": 1, "ds": 2, "pg": 4, "ps": 8}            # numberThreads given by each blueprint layer (spec: Value)
+BP_LAYERS = {"g": ["dg"], "gs": ["dg", "ds"], "sP": ["ds", "pg"], "all": ["dg", "ds", "pg", "ps"]}    # spec: Defines
 
 
-def indent(text, n):
-    return "\n".join((" " * n + l) if l.strip() else l for l in text.splitlines())
+def lazy_suffix(pk):
+    """the stage-1 variable `lz` references what only a component knows (replica, loopIteration) and `mode`"""
+    if not (pk["repl"] or pk["loop"]):
+        return None
+    return ("-%(replica)s" if pk["repl"] else "") + ("-%(loopIteration)s" if pk["loop"] else "") + "-%(mode)s"
+
+
+def lazy_kind(pk):
+    """what makes the stage variable `lz` unresolvable outside a component (part of the violation keys)"""
+    return "+".join(x for x, on in (("replica", pk["repl"]), ("loopIteration", pk["loop"])) if on)
 
 
 def package_files(pk):
-    wa = '  workflowAttributes: {replicate: "%(n)s"}' if pk["repl"] else ""
-    ga = "  workflowAttributes: {aggregate: true}" if pk["repl"] else ""
+    """stage 0: gen; stage 1: work (looped / replicated); stage 2: gather (+ stop, the condition); stage 3: report"""
+    import yaml
+    lz = lazy_suffix(pk)
+    wargs = " %(uv)s %(pv)s" + (" %(lz)s" if lz else "")
+    wattr = {"replicate": "%(n)s"} if pk["repl"] else None
+    gattr = {"aggregate": True} if pk["repl"] else None
+
+    def comp(name, stage, args, refs=None, attrs=None, **extra):
+        c = {"name": name, "stage": stage, "command": {"executable": "echo", "arguments": args}}
+        if refs:
+            c["references"] = refs
+        if attrs:
+            c["workflowAttributes"] = attrs
+        c.update(extra)
+        return c
     files = {}
+    comps = [comp("gen", 0, "%(uv)s %(pv)s %(sv)s %(gv)s %(pp)s", variables={"pp": 0},
+                  override={"plat": {"command": {"arguments": "OVR %(uv)s %(pv)s %(sv)s %(gv)s %(pp)s"}}})]
+    comps[0]["command"]["environment"] = "env1"
     if pk["loop"]:
-        files["conf/dowhile.yaml"] = DOWHILE.replace("WORKATTR", wa).replace("GATHERATTR", ga)
-        loop = "- stage: 1\n  name: loop\n  $import: dowhile.yaml\n  bindings: {number: \"stage0.gen:output\"}"
-        refs = ["stage1.work:output", "stage1.gather:loopref"]
+        doc = {"type": "DoWhile", "inputBindings": {"number": {"type": "output"}}, "condition": "stage1.stop/flag.txt:output",
+               "components": [
+                   comp("work", 0, "number:output" + wargs, ["number:output"], wattr, variables={"mode": "fast"}),
+                   comp("gather", 1, "stage0.work:output %(mode)s", ["stage0.work:output"], gattr),
+                   comp("stop", 1, "gather:output %(loopIteration)s", ["gather:output"])]}
+        if not pk["repl"]:
+            doc["loopBindings"] = {"number": "stage0.work:output"}      # a replicating component cannot carry the loop
+        files["conf/dowhile.yaml"] = yaml.safe_dump(doc, sort_keys=False)
+        comps.append({"name": "loop", "stage": 1, "$import": "dowhile.yaml", "bindings": {"number": "stage0.gen:output"}})
+        refs = ["stage1.work:output", "stage2.gather:loopref"]
     else:
-        loop = PLAIN.replace("WORKATTR", wa).replace("GATHERATTR", ga).strip("\n")
-        refs = ["stage1.work:output", "stage1.gather:ref"]
-    files["conf/flowir_package.yaml"] = (MAIN.replace("LOOP", loop).replace("REPORTARGS", " ".join(refs))
-                                         .replace("REPORTREFS", json.dumps(refs)))
+        comps.append(comp("work", 1, "stage0.gen:output" + wargs, ["stage0.gen:output"], wattr, variables={"mode": "fast"}))
+        comps.append(comp("gather", 2, "stage1.work:output %(mode)s", ["stage1.work:output"], gattr))
+        refs = ["stage1.work:output", "stage2.gather:ref"]
+    comps.append(comp("report", 3, " ".join(refs), refs))
+    variables = {"default": {"global": {"uv": "d-uv", "pv": "d-pv", "n": 2, "gv": "g-%(pv)s", "mode": "normal"},
+                             "stages": {0: {"sv": "d-sv"}}},
+                 "plat": {"global": {"pv": "P-pv"}, "stages": {0: {"sv": "P-sv"}}}}
+    if lz:
+        variables["default"]["stages"][1] = {"lz": "z" + lz}
+        variables["plat"]["stages"][1] = {"lz": "pz" + lz}
+    blueprint = {"default": {"global": {"resourceManager": {"config": {"walltime": 61}}}, "stages": {}},
+                 "plat": {"global": {"resourceManager": {"config": {"walltime": 62}}}, "stages": {}}}
+    for layer in BP_LAYERS[pk["bp"]]:
+        plat = "default" if layer[0] == "d" else "plat"
+        if layer[1] == "g":
+            blueprint[plat]["global"]["resourceRequest"] = {"numberThreads": THREADS[layer]}
+        else:
+            blueprint[plat]["stages"][1] = {"resourceRequest": {"numberThreads": THREADS[layer]}}
+    main = {"platforms": ["default", "plat"],
+            "output": {"result": {"data-in": "stage0.gen/out.stdout:copy", "description": "key output %(pv)s"}},
+            "status-report": {0: {"stage-weight": 0.1}, 1: {"stage-weight": 0.4}, 2: {"stage-weight": 0.3}, 3: {"stage-weight": 0.2}},
+            "variables": variables,
+            "environments": {"default": {"env1": {"A": "%(pv)s", "C": "common"}}, "plat": {"env1": {"B": "plat-only"}}},
+            "blueprint": blueprint, "components": comps}
+    files["conf/flowir_package.yaml"] = yaml.safe_dump(main, sort_keys=False)
     return files
 
 
@@ -191,23 +169,36 @@ def observed_view(exp, pk):
     gen = wg.configurationForNode("stage0.gen", raw=False)
     v = gen["variables"]
     nodes = list(wg.graph.nodes)
-    if pk["loop"]:
-        work0 = [n for n in nodes if n.startswith("stage1.0#work")]
-        iters = max(int(n.split(".")[1].split("#")[0]) for n in nodes if "#" in n)
-        every = all(len([n for n in nodes if n.startswith("stage1.%d#work" % i)]) == len(work0) for i in range(iters + 1))
-    else:
-        work0 = [n for n in nodes if n.startswith("stage1.work")]
-        iters, every = 0, True
-    nrep = len(work0) if pk["repl"] else 0
+    works = {}          # (iteration, replica) -> node
+    for n in nodes:
+        name = n.split(".", 1)[1]
+        if n.startswith("stage1.") and (name.split("#")[-1].startswith("work")):
+            it = int(name.split("#")[0]) if "#" in name else 0
+            rep = name.split("#")[-1][len("work"):]
+            works[(it, int(rep) if rep else -1)] = n
+    iters = max(i for i, _ in works)
+    per_iter = [sorted(r for i, r in works if i == it) for it in range(iters + 1)]
+    every = all(x == per_iter[0] for x in per_iter)
+    nrep = len(per_iter[0]) if pk["repl"] else 0
     args = gen["command"]["arguments"].split()
     ovr = args[0] == "OVR"
     if ovr:
         args = args[1:]
-    wk = wg.configurationForNode(sorted(work0)[0], raw=False)
+    threads, lzs, wargs = set(), {}, set()
+    for (it, rep), n in sorted(works.items()):
+        wk = wg.configurationForNode(n, raw=False)
+        threads.add(int(wk["resourceRequest"]["numberThreads"]))
+        a = wk["command"]["arguments"].split()
+        wargs.add(tuple(a[1:3]))
+        lzs[(it, rep)] = a[3] if len(a) > 3 else None
+    gathers = [n for n in nodes if n.startswith("stage2.") and n.split(".", 1)[1].split("#")[-1].startswith("gather")]
+    threads2 = {int(wg.configurationForNode(n, raw=False)["resourceRequest"]["numberThreads"]) for n in gathers}
     return {"live": True, "plat": wg.configuration.platform_name, "uv": v.get("uv"), "pv": v.get("pv"), "sv": v.get("sv"),
             "nrep": nrep, "wall": int(gen["resourceManager"]["config"]["walltime"]), "ovr": ovr,
             "pp": int(v.get("pp")), "iters": iters,
-            "_args": args, "_work_args": wk["command"]["arguments"].split()[1:3], "_every_iteration_same_replicas": every}
+            "threads": sorted(threads)[0] if len(threads) == 1 else sorted(threads),
+            "threads2": sorted(threads2)[0] if len(threads2) == 1 else sorted(threads2),
+            "_args": args, "_work_args": sorted(wargs), "_lz": lzs, "_every_iteration_same_replicas": every}
 
 
 def canon_files(loc):
@@ -292,11 +283,9 @@ class History:
 
 
 def key_of(pk, site, hist, detail=""):
-    """canonical class of a failing history: observation site x what differs (field / part of the projection / exception
-    type) x which dynamic changes preceded the reload.  Package features are not part of the key (they are in the text)."""
-    acts = [h["a"] for h in hist]
-    dyn = "+".join(a for a in ("Iterate", "Patch") if a in acts) or "static"
-    return "%s:%s:%s" % (site, detail or "-", dyn)
+    """canonical class of a failing history: observation site x what differs (fields of View / part of the projection /
+    exception type).  Package features and the preceding actions are in the text, not in the key."""
+    return "%s:%s" % (site, detail or "-")
 
 
 def diff_class(d):
@@ -310,7 +299,7 @@ def diff_class(d):
 
 
 def label(pk):
-    return "%s-%s%s%s" % (pk["plat"], pk["uv"], "-repl" if pk["repl"] else "", "-loop" if pk["loop"] else "")
+    return "%s-%s%s%s-bp%s" % (pk["plat"], pk["uv"], "-repl" if pk["repl"] else "", "-loop" if pk["loop"] else "", pk["bp"])
 
 
 def hist_str(hist):
@@ -327,6 +316,7 @@ def run_history(args):
     def viol(site, i, msg, detail=""):
         res["viol"].append((key_of(pk, site, hist[:i + 1], detail), "package %s, history [%s]: %s" % (label(pk), hist_str(hist[:i + 1]), msg),
                             {"pk": pk, "hist": hist[:i + 1]}))
+    known_bad = set()
     try:
         for i, step in enumerate(hist):
             a, flag = step["a"], step["flag"]
@@ -354,32 +344,43 @@ def run_history(args):
             res["steps"] += 1
             want = expected[i]["mem"]
             got = observed_view(h.exp, pk)
-            bad = {k: (got[k], want[k]) for k in want if got[k] != want[k]}
+            bad = {k: (got[k], want[k]) for k in want if k != "lzp" and got[k] != want[k]}
+            lz = lazy_suffix(pk)
+            for (it, rep), val in sorted(got["_lz"].items()):
+                wlz = None if not lz else (want["lzp"] + ("-%d" % rep if pk["repl"] else "") + ("-%d" % it if pk["loop"] else "") + "-fast")
+                if val != wlz:
+                    bad["lazy stage variable lz[%s]" % lazy_kind(pk)] = ((it, rep, val), wlz)
+                    break
             exp_args = [want["uv"], want["pv"], want["sv"], "g-" + want["pv"], str(want["pp"])]
             if got["_args"] != exp_args:
                 bad["command line of stage0.gen"] = (got["_args"], exp_args)
-            if got["_work_args"] != [want["uv"], want["pv"]]:
-                bad["command line of work"] = (got["_work_args"], [want["uv"], want["pv"]])
+            if got["_work_args"] != [(want["uv"], want["pv"])]:
+                bad["command line of work"] = (got["_work_args"], [(want["uv"], want["pv"])])
             if not got["_every_iteration_same_replicas"]:
                 bad["replicas per iteration"] = ("differ", "equal")
-            if bad:
+            fields = "+".join(sorted(k.split()[-1] for k in bad if k not in known_bad))
+            if fields:
+                acts = [x["a"] for x in hist[:i + 1]]
                 if a == "Load":
-                    viol("view-after-load", i, "the reloaded experiment differs from the specification (observed, specified): %s" % bad,
-                         "+".join(sorted(k.split()[-1] for k in bad)))
+                    viol("view-after-load", i, "the reloaded experiment differs from the specification (observed, specified): %s" % bad, fields)
                 elif a == "Create":
                     # how a package is resolved at creation is the subject of C04; for C07 it is the baseline
                     # the history goes on: whether what was created survives store/load is decided on the real projection
                     res["drift"] = "package %s: the created experiment does not match View (spec drift): %s" % (label(pk), bad)
+                elif "Load" in acts[:-1]:
+                    viol("view-after-%s-of-reloaded-experiment" % a, i, "%s on an experiment rebuilt from its directory does not give what it gives "
+                         "on the original (observed, specified): %s" % (a, bad), fields)
                 else:
-                    viol("view-after-%s" % a, i, "the experiment in memory differs from the specification (observed, specified): %s" % bad,
-                         "+".join(sorted(k.split()[-1] for k in bad)))
+                    viol("view-after-%s" % a, i, "the experiment in memory differs from the specification (observed, specified): %s" % bad, fields)
+            known_bad |= set(bad)       # a divergence is reported where it first shows
             if a == "Load":
                 res["loads"] += 1
                 after = project(h.exp)
                 d = diff(h.stored_projection, after)
                 if d:
                     viol("projection-after-load", i, "%d difference(s) between the experiment that wrote the directory and the reloaded one: %s" % (
-                        len(d), "; ".join(x[:300] for x in d[:4])), diff_class(d[0]))
+                        len(d), "; ".join(x[:300] for x in d[:4])),
+                         diff_class(d[0]) + ("[lz:%s]" % lazy_kind(pk) if any("/lz:" in x for x in d) else ""))
                 if flag:
                     now = canon_files(h.loc)
                     d = diff(before_files, now)
@@ -399,16 +400,16 @@ def run_history(args):
     return res
 
 
-def cfg_text(platforms, uservars, repls, loops, maxiter, maxpatch, maxlen, emit, props=True):
+def cfg_text(platforms, uservars, repls, loops, maxiter, maxpatch, maxlen, emit, props=True, blueprints=("g", "gs", "sP", "all")):
     def s(xs):
         return "{" + ", ".join(xs) + "}"
-    t = ("CONSTANTS\n  Platforms = %s\n  UserVars = %s\n  Repls = %s\n  LoopsC = %s\n  MaxIter = %d\n  MaxPatch = %d\n  MaxLen = %d\n  Emit = %s\n"
+    t = ("CONSTANTS\n  Platforms = %s\n  UserVars = %s\n  Repls = %s\n  LoopsC = %s\n  Blueprints = %s\n  MaxIter = %d\n  MaxPatch = %d\n  MaxLen = %d\n  Emit = %s\n"
          "SPECIFICATION Spec\nVIEW view\nCONSTRAINT Bounded\nCHECK_DEADLOCK FALSE\n") % (
         s('"%s"' % p for p in platforms), s('"%s"' % u for u in uservars), s("TRUE" if r else "FALSE" for r in repls),
-        s("TRUE" if r else "FALSE" for r in loops), maxiter, maxpatch, maxlen, "TRUE" if emit else "FALSE")
+        s("TRUE" if r else "FALSE" for r in loops), s('"%s"' % b for b in blueprints), maxiter, maxpatch, maxlen, "TRUE" if emit else "FALSE")
     if props:
-        t += ("INVARIANT TypeOK\nINVARIANT CreationOptionsSurvive\nINVARIANT DiskNeverAhead\n"
-              "PROPERTY StoreLoadIdentity\nPROPERTY LoadYieldsStored\nPROPERTY LoadStoreIdempotent\nPROPERTY StoreCapturesAll\n")
+        t += ("INVARIANT TypeOK\nINVARIANT CreationOptionsSurvive\nINVARIANT DiskNeverAhead\nINVARIANT ViewIndependentOfOrigin\n"
+              "PROPERTY StoreLoadIdentity\nPROPERTY LoadYieldsStored\nPROPERTY LoadStoreIdempotent\nPROPERTY StoreCapturesAll\nPROPERTY IterateCommutesWithReload\n")
     if emit:
         t += "ACTION_CONSTRAINT EmitStep\n"
     return t
@@ -485,11 +486,24 @@ def run(tier):
     gen = os.path.join(SPEC, "gen")
     os.makedirs(gen, exist_ok=True)
     thorough = tier == "thorough"
-    dims = dict(platforms=["default", "plat"], uservars=["none", "global", "stage"], repls=[False, True], loops=[False, True])
-    maxlen = 6 if thorough else 5
-    maxiter, maxpatch = 2, (2 if thorough else 1)
-    # 1. the design
-    c1 = _cfg(os.path.join(gen, "InstanceStore_mc_%s.cfg" % tier), cfg_text(maxiter=maxiter, maxpatch=maxpatch, maxlen=maxlen + 1, emit=False, **dims))
+    full = dict(platforms=["default", "plat"], uservars=["none", "global", "stage"], repls=[False, True], loops=[False, True],
+                blueprints=["g", "gs", "sP", "all"])
+    maxlen, maxiter, maxpatch = 5, 2, 1
+    if thorough:
+        families = [full]                  # all 96 packages
+    else:
+        # sub-families (each a product) that together cover every value of every dimension with a loop and every pair
+        # (platform, blueprint layers), (platform, user variables), (user variables, replication)
+        families = [
+            dict(full, platforms=["plat"], uservars=["none"], repls=[True], loops=[True]),
+            dict(full, platforms=["default"], uservars=["none"], repls=[True], loops=[True], blueprints=["g", "gs"]),
+            dict(full, platforms=["plat"], uservars=["global"], repls=[True], loops=[True], blueprints=["sP"]),
+            dict(full, platforms=["default"], uservars=["stage"], repls=[False], loops=[True], blueprints=["gs"]),
+            dict(full, loops=[False], blueprints=["gs"]),
+            dict(full, platforms=["plat"], uservars=["none"], repls=[True], loops=[False], blueprints=["g", "sP", "all"]),
+        ]
+    # 1. the design (whole family, one step deeper than the histories that are executed)
+    c1 = _cfg(os.path.join(gen, "InstanceStore_mc_%s.cfg" % tier), cfg_text(maxiter=maxiter, maxpatch=2, maxlen=maxlen + 2, emit=False, **full))
     r = tlc.run_tlc("InstanceStore", c1, timeout=600, coverage=True)
     if not r["ok"]:
         raise MachineryError("InstanceStore.tla: %s fails on the model:\n%s" % (r["violated"], r["out"][-2000:]))
@@ -498,26 +512,33 @@ def run(tier):
             raise MachineryError("action %s of InstanceStore.tla never taken (vacuous run): %s" % (act, r["coverage"]))
     chk.add_tlc(r)
     # 2. transitions with witness histories
-    c2 = _cfg(os.path.join(gen, "InstanceStore_emit_%s.cfg" % tier), cfg_text(maxiter=maxiter, maxpatch=maxpatch, maxlen=maxlen, emit=True, props=False, **dims))
-    r2 = tlc.run_tlc("InstanceStore", c2, workers=1, timeout=900)
-    if not r2["ok"]:
-        raise MachineryError("InstanceStore.tla emission failed: %s" % r2["out"][-2000:])
-    chk.add_tlc(r2)
-    hs = histories_from(r2["cases"])
+    hs, npk = [], set()
+    for fi, fam in enumerate(families):
+        c2 = _cfg(os.path.join(gen, "InstanceStore_emit_%s_%d.cfg" % (tier, fi)), cfg_text(maxiter=maxiter, maxpatch=maxpatch, maxlen=maxlen, emit=True, props=False, **fam))
+        r2 = tlc.run_tlc("InstanceStore", c2, workers=1, timeout=900)
+        if not r2["ok"]:
+            raise MachineryError("InstanceStore.tla emission failed: %s" % r2["out"][-2000:])
+        chk.add_tlc(r2)
+        hs += histories_from(r2["cases"])
+    npk = {json.dumps(pk, sort_keys=True) for pk, _, _ in hs}
     if len(hs) < 300:
         raise MachineryError("TLC produced only %d histories" % len(hs))
     acts = {h["a"] for _, hist, _ in hs for h in hist}
     if acts != set(ACTIONS):
         raise MachineryError("the histories do not use every action: %s" % sorted(acts))
+    if not any([x["a"] for x in hist][-2:] == ["Load", "Iterate"] for _, hist, _ in hs):
+        raise MachineryError("no history unrolls a reloaded experiment")
     jobs = [(pk, hist, exp, os.path.join(chk.scratch, "h%04d" % i)) for i, (pk, hist, exp) in enumerate(hs)]
     procs = max(1, min(8, (os.cpu_count() or 2) // 2))
     loads = execute(chk, jobs, procs)
     chk.sample({"package": jobs[0][0], "history": hist_str(jobs[0][1])}, limit=3)
     chk.sample({"package": jobs[len(jobs) // 2][0], "history": hist_str(jobs[len(jobs) // 2][1])}, limit=3)
     chk.sample({"package": jobs[-1][0], "history": hist_str(jobs[-1][1])}, limit=3)
-    chk.cov["rule"] = ("every transition of the abstract state graph of InstanceStore.tla (24 packages: platform x user variable file x "
-                       "replication x DoWhile; histories of <= %d actions) is executed once on real directories along a shortest history; "
-                       "evaluations = executed steps, distinct = distinct (package, history)" % maxlen)
+    chk.cov["rule"] = ("every transition of the abstract state graph of InstanceStore.tla (%d packages: platform x user variable file x "
+                       "replication x DoWhile x blueprint layers; lazily resolved stage variable overridden at component level; live objects made by "
+                       "Create or by Load; histories of <= %d actions) is executed once on real directories along a shortest history; "
+                       "evaluations = executed steps, distinct = distinct (package, history)" % (len(npk), maxlen))
+    chk.cov["packages"] = len(npk)
     chk.cov["exhaustive"] = True
     chk.cov["histories"] = len(jobs)
     chk.cov["loads_compared"] = loads
@@ -547,7 +568,8 @@ def replay(path):
     gen = os.path.join(SPEC, "gen")
     os.makedirs(gen, exist_ok=True)
     c = _cfg(os.path.join(gen, "InstanceStore_replay_%d.cfg" % os.getpid()),
-             cfg_text([pk["plat"]], [pk["uv"]], [pk["repl"]], [pk["loop"]], 2, 2, len(hist) + 1, True, props=False).replace("VIEW view\n", ""))
+             cfg_text([pk["plat"]], [pk["uv"]], [pk["repl"]], [pk["loop"]], 2, 2, len(hist) + 1, True, props=False,
+                      blueprints=[pk.get("bp", "g")]).replace("VIEW view\n", ""))
     r = tlc.run_tlc("InstanceStore", c, workers=1, timeout=300)
     os.remove(c)
     by = {json.dumps(x["hist"], sort_keys=True): x for x in r["cases"]}
